@@ -149,7 +149,7 @@ def unbounded_depth(t):
     (the back-tracking matcher explores every split of the subject among the iterations)"""
     k = t[0]
     sub = max([unbounded_depth(x) for x in t[1:] if isinstance(x, tuple)] or [0])
-    if k == "rep" and (t[3] is None or t[3] > 2) and t[1][0] not in ("c", ".", "cls"):
+    if k == "rep" and (t[3] is None or t[3] >= 2) and t[1][0] not in ("c", ".", "cls"):
         return sub + 1
     return sub
 
@@ -782,9 +782,10 @@ def run(ck):
         "executions stopped by the per-exec %d ms alarm are excluded (no complexity clause)" % ALARM_MS,
     ]
     ck.cov["rule"] = (
-        "bounded-exhaustive: every tree up to N nodes over leaves {a,b,\\n,.,[^a],[ab],^,$,()} and repetitions "
-        "{*,+,?,{2},{1,2},{2,},{0}} rendered as ERE and (alternation-free) BRE, under the compile-flag sets, all "
-        "subjects over {a,b,\\n} up to length L, 4 exec-flag sets, nmatch in {0,1,nsub+2}; random trees up to 12 "
+        "bounded-exhaustive: every tree up to N nodes (quick 4, thorough 5) over leaves {a,b,\\n,.,[^a],[ab],^,$,()} and "
+        "repetitions {*,+,?,{2},{1,2},{2,},{0}} rendered as ERE and (alternation-free) BRE, under the compile-flag sets, all "
+        "subjects over {a,b,\\n} up to length L (quick 5; thorough 6 for trees up to 4 nodes, 3..5 for 5-node trees), the "
+        "exec-flag sets that can reach the pattern, nmatch in {0,1,nsub+2}; random trees up to 12 "
         "nodes with bracket expressions/high bytes/escaped specials and subjects up to 40; byte mutations of rendered "
         "patterns and hand-made members of every regerror class; AT&T table.  A case is distinct = (cflags, pattern "
         "bytes); non-trivial = compiles and is executed on at least one subject")
@@ -822,7 +823,7 @@ def run(ck):
     # ---- bounded-exhaustive
     # quick   : all trees <= 4 nodes x all subjects over {a,b,\n} up to length 5
     # thorough: all trees <= 4 nodes x all subjects up to length 6; all trees with 5 nodes x all
-    #           subjects up to length 4 (every 16th of them, seed-rotated, also up to length 6)
+    #           subjects up to length 3 (a seed-rotated quarter up to length 4, a sixteenth up to 5)
     # Dimensions that cannot influence a pattern are not multiplied out: exec flags only reach
     # match_bol/match_eol (patterns with an anchor), REG_NEWLINE only reaches anchors, `.` and
     # negated brackets, REG_ICASE nothing over this alphabet; each irrelevant dimension is still
@@ -852,8 +853,8 @@ def run(ck):
               if nn <= 4:
                   full = subs[slen]
               else:
-                  full = subs[6] if (ti + rot) % 16 == 0 else subs[4]
-              small = subs[slen - 2] if nn <= 4 else subs[3]
+                  full = subs[5] if (ti + rot) % 16 == 0 else (subs[4] if (ti + rot) % 4 == 1 else subs[3])
+              small = subs[slen - 2] if nn <= 4 else subs[2]
               hb, he = has(t, "^"), has(t, "$")
               if (hb and he) or (anchored and r8):
                   efs = [0, 16, 32, 48]
@@ -908,7 +909,7 @@ def run(ck):
         if not pat:
             continue
         d = unbounded_depth(t)
-        cap = 40 if d == 0 else (12 if d == 1 else 7)
+        cap = 40 if d == 0 else (12 if d == 1 else (7 if d == 2 else 4))
         cf = rng.below(16) & ~EXT | (EXT if ere else 0)
         ss = [rand_subject(rng, cap) for _ in range(12)]
         lines.append(xline(cf, pat, [0, 1, "n", "m"], [0, 16, 32, 48], ss))
